@@ -134,6 +134,30 @@ func checkC06(c *Ctx) {
 		}
 		c.guardEachSite(p, "C06.flaguse", "false flag never leads to success", f, -1, latFalse, shared...)
 	}
+	// X-Wing, by its specification, goes on with the all-zero value: nothing in the package may branch on or
+	// return the flag (a "hardening" check that turns it into an error refuses keys the specification accepts)
+	{
+		n := 0
+		for f := range p.AllFuncs {
+			if f.Blocks == nil || funcPkgPath(f) != circlPath+"/kem/xwing" || !sourceFunc(f) {
+				continue
+			}
+			for _, s := range p.callSites(f, "dh/x25519.Shared") {
+				n++
+				v := s.Value()
+				construct := fname(f) + ": the validity flag of x25519.Shared is not consulted (X-Wing accepts low-order shares)"
+				if v != nil && len(*v.Referrers()) > 0 {
+					c.bad("C06.flaguse", construct, "the flag is used at "+p.pos(s.Pos())+": X-Wing would refuse an input its specification accepts", p.pos(s.Pos()))
+				} else {
+					c.ok("C06.flaguse", construct, "result discarded at "+p.pos(s.Pos()), p.pos(s.Pos()))
+				}
+			}
+		}
+		c.count("xwing_shared_sites", n)
+		if n < 2 {
+			c.undecided("C06.flaguse", "kem/xwing: call sites of x25519.Shared", fmt.Sprintf("only %d found (floor 2)", n), "")
+		}
+	}
 	// the KEM layers above
 	xs := "kem/hybrid"
 	for _, n := range []string{"EncapsulateDeterministically", "Decapsulate"} {
